@@ -3,7 +3,7 @@ import os
 # Repairs of the C14 defect sites that /repo contains, by number of the proposed patch
 # (known-findings.d/mdm-fix-<n>-*.patch): 1 programData bounds (+UnlockKey min length), 2 ReadSector,
 # 3 ReadOffset, 4 DropSectors, 5 rpcSectorRoots, 6 rpcRead, 7 rpcWrite update+proof, 8 rpcFormContract key
-# length, 9 registry recorder store.  Add the number here when its `fix:` commit lands in /repo; the model
+# length, 9 registry recorder store, 10 FundAccount payment below FundAccountCost.  Add the number here when its `fix:` commit lands in /repo; the model
 # driver then expects the repaired behaviour at that site (Hostd.Mdm.Fixes.enable).  VERIF_MDM_FIXED
 # (space separated) overrides the list, e.g. to check a scratch tree: VERIF_MDM_FIXED="1 2 3" VERIF_REPO=... bin/check C14
 FIXED_IN_REPO = [1, 2, 3, 4, 5, 6, 7, 8, 9]
@@ -27,7 +27,7 @@ PROP = dict(
             "facts about host state passed to the model as inputs: sector present, registry entry found/put accepted, unlock-key specifier matches; instruction prices computed by core's HostPriceTable cost functions",
             "panic site attribution by parsing the dead host process's goroutine dump",
         ],
-        level_text="slices_in_bounds/no_panic proved in Lean for ALL operands, program-data sizes and sector counts for the repaired guards (accessors, every MDM instruction, executor, RHP3 handler, RHP2 sector-roots/read/write/form, ContractUpdater, registry recorder, cost multiplications); for the guards as written the property is FALSE: concrete witnesses by `decide`, `_partial` theorems under the excluding hypotheses; reject_noop proved for the handler model (revision, roots unchanged; charge <= budget; refused => no charge). Tie: each witness and thousands of seeded hostile requests are executed on the real programData/ContractUpdater (in-process) and on a real host node over RHP2/RHP3 TCP sessions (child processes; a host crash is observed as process death), and replayed on the model driver (outcome class, failing instruction index, charged amount, output lengths, roots/revision snapshots)",
+        level_text="slices_in_bounds/no_panic proved in Lean for ALL operands, program-data sizes and sector counts for the repaired guards (accessors, every MDM instruction, executor, RHP3 handler, RHP2 sector-roots/read/write/form, RHP3 FundAccount/AccountBalance/LatestRevision/UpdatePriceTable, ContractUpdater, registry recorder, cost multiplications); for the guards as written the property is FALSE: concrete witnesses by `decide`, `_partial` theorems under the excluding hypotheses; reject_noop proved for the handler model (revision, roots unchanged; charge <= budget; refused => no charge). Tie: each witness and thousands of seeded hostile requests are executed on the real programData/ContractUpdater (in-process) and on a real host node over RHP2/RHP3 TCP sessions (child processes; a host crash is observed as process death), and replayed on the model driver (outcome class, failing instruction index, charged amount, output lengths, roots/revision snapshots)",
         level_note="partial: hangs only detected up to a 20 s per-request timeout; decoding inside go.sia.tech/core is attributed, not modelled (byte-mutation cases are monitor-only); RHP4 contractor/sector interfaces are not driven by this engine; RHP2 update-action commit outcome (C02) and renewals are outside the model",
         assumptions=["'rejected leaves balances unchanged' applies to requests refused before execution; a program that ran and failed is charged for what ran minus the storage refund, never more than its budget (DESIGN §6.3)",
                      "an RHP2 read/sector-roots request whose payment revision was committed and which then fails to be served (unknown sector) is 'paid then failed', not 'rejected'"],
